@@ -112,7 +112,7 @@ def reset_solver():
 # ------------------------------------------------------------------------------------------
 # descriptors
 # ------------------------------------------------------------------------------------------
-GRID_FAMILIES = ("uniform", "quadratic", "geometric", "geometric-reversed", "sorted-random", "repeated", "huge-steps", "mixed")
+GRID_FAMILIES = ("uniform", "quadratic", "geometric", "geometric-reversed", "sorted-random", "repeated", "huge-steps", "mixed", "dyadic-blocks")
 MONOTONE_DT = ("uniform", "quadratic", "geometric", "geometric-reversed")
 
 
@@ -153,6 +153,22 @@ def pick_pressures(tab, frac_i, ratio):
     return float(p_i), float(min(p_f, p_i))
 
 
+def alpha_var_fn(desc):
+    """Scaled diffusivity of a user subclass of IdealReservoir as a function of the profile (None:
+    the plain class). Known in closed form to the harness, positive everywhere."""
+    av = desc.get("alpha_var")
+    if not av:
+        return None
+    beta = float(av["beta"])
+    if av["kind"] == "linear":
+        return lambda m: 1.0 + beta * (1.0 - np.asarray(m, dtype=float))
+    if av["kind"] == "exp":
+        return lambda m: np.exp(beta * (np.asarray(m, dtype=float) - 1.0))
+    if av["kind"] == "step":
+        return lambda m: np.where(np.asarray(m, dtype=float) > 0.5, 1.0, 1.0 + beta)
+    raise ValueError(av["kind"])
+
+
 def typed_nx(desc):
     """The node count as the caller might hold it: a Python int, or a numpy integer of any width that
     can represent it (np.int16(200), np.int8(30), np.uint8(16), np.int64(...))."""
@@ -179,7 +195,17 @@ def build(desc):
     if desc["cls"] == "twophase":
         return _build_twophase(desc, time)
     if desc["cls"] == "ideal":
-        res = IdealReservoir(desc["nx"], desc["p_f"], desc["p_i"], None)
+        K = IdealReservoir
+        fn = alpha_var_fn(desc)
+        if fn is not None:
+            # the public hook `alpha_scaled` overridden in a user's subclass, run through the
+            # inherited IdealReservoir.simulate: diffusivity that depends on the previous profile
+            class VariableDiffusivityIdeal(IdealReservoir):
+                def alpha_scaled(self, pseudopressure):
+                    return fn(pseudopressure)
+
+            K = VariableDiffusivityIdeal
+        res = K(desc["nx"], desc["p_f"], desc["p_i"], None)
         return res, time, None, None, None
     tab = tables.from_desc(desc["table"])
     with warnings.catch_warnings():
@@ -312,7 +338,7 @@ def random_sim_desc(rng, tier, single_share=0.75, consistent_only=False, schedul
 # ------------------------------------------------------------------------------------------
 # C04's state-based oracle
 # ------------------------------------------------------------------------------------------
-def step_residuals(res, cls, time, pp, m_i, m_f, tol=1e-11, check_row0=False):
+def step_residuals(res, cls, time, pp, m_i, m_f, tol=1e-11, check_row0=False, alpha_fn=None):
     """Backward-Euler residual of every stored step, rows 1..nx-1 (plus row 0 when asked).
 
     Returns dict(worst_ratio, worst_at, bracket=(lo, hi), n_rows, n_constraining, c_hat,
@@ -330,6 +356,8 @@ def step_residuals(res, cls, time, pp, m_i, m_f, tol=1e-11, check_row0=False):
     if cls == "ideal":
         b = prev.copy()
         a = np.ones_like(b)  # ("twophase" is a SinglePhaseReservoir subclass: same scheme as "single")
+        if alpha_fn is not None:
+            a = np.asarray(alpha_fn(b), dtype=float) * np.ones_like(b)
     else:
         b = np.minimum(prev, m_i)
         b0 = b.copy()
